@@ -54,6 +54,12 @@ Theorem C12_unsupported_cases (n : node) (x : data) (y : option data) :
   (has_online (nkind n) = false -> step n (OTrain x y) = Err PSupport TypeError n).
 Proof. split; [intro H; split|intro H]; apply unsupported_rejected; exact H. Qed.
 
+(* ... and at Model level: offline fit of a Model without any offline learner (reservoir >> RLS, chains of plain nodes)
+   is refused by the first statement of Model.fit, TypeError, every node exactly as it was *)
+Theorem C12_model_fit_unsupported (nodes : list node) :
+  Forall (fun n => has_offline (nkind n) = false) nodes -> model_fit_guard nodes = Some (TypeError, nodes).
+Proof. exact (model_fit_unsupported nodes). Qed.
+
 (* 4. Inputs whose feature size disagrees with the node's input dimension, non-numeric arrays, non-array objects:
       rejected in the checking phase of every supported operation, for arrays of ANY rank (no empty axis), node untouched. *)
 Theorem C12_wrong_feature_rejected (n : node) (o : op) (num : bool) (sh : list nat) (d : nat) :
@@ -233,6 +239,7 @@ Print Assumptions C12_no_teacher_left_behind.
 Print Assumptions C12_train_clears_teacher.
 Print Assumptions C12_unsupported_rejected.
 Print Assumptions C12_unsupported_cases.
+Print Assumptions C12_model_fit_unsupported.
 Print Assumptions C12_wrong_feature_rejected.
 Print Assumptions C12_non_numeric_rejected.
 Print Assumptions C12_non_array_rejected.
